@@ -205,11 +205,12 @@ Value Endgame<kKPK>::strongSideScore(const Position& position) const
     Square strongPawn =
         position.piece_position(make_piece(strongSide, PAWN), 0);
 
+    // normalize() already mirrored the squares to the white point of view
     bitbase::normalize(strongSide, side, strongKingSq, strongPawn, weakKingSq);
     if (!bitbase::check(side, strongKingSq, strongPawn, weakKingSq))
-        return VALUE_POSITIVE_DRAW + Value(rank(normalize(strongPawn, strongSide)));
+        return VALUE_POSITIVE_DRAW + Value(rank(strongPawn));
 
-    return VALUE_KNOWN_WIN + Value(rank(normalize(strongPawn, strongSide)));
+    return VALUE_KNOWN_WIN + Value(rank(strongPawn));
 }
 
 template <>
